@@ -1,8 +1,433 @@
-(* C01 - XML decodes to the Map the documented conventions prescribe.  Statements only.
-   (decode_conv and the per-clause lemmas about conv are being added; see Spec/Conv.v) *)
-From Mxj Require Import Model.XmlDec Spec.Conv.
+(* C01 - XML decodes to the Map the documented conventions prescribe, under all options.
+   Statements only.  Vocabulary: Model/XmlDec.v (the decoder), Spec/Conv.v (document trees,
+   the tokens of a tree, the prescribed Map [conv]), Spec/Dom01.v (the domain [dom01]),
+   Spec/ConvClauses.v (child elements / values under a key / complete token lists).
+   Proofs: Proofs/C01P.v (tokens -> fold semantics), Proofs/C01Q.v (fold semantics -> conv),
+   Proofs/C01R.v (clauses about conv), Proofs/C01O.v (option clauses), Proofs/C01E.v and
+   Proofs/C01T.v (error side). *)
+From Mxj Require Import Model.XmlDec Spec.Conv Spec.Dom01 Spec.ConvClauses Spec.ConvOpts
+  Proofs.C01P Proofs.C01Q Proofs.C01R Proofs.C01E Proofs.C01O Proofs.C01T.
 
 (* cast never changes a value when the cast argument is false: un-cast decoding yields the identical string *)
 Theorem C01_uncast_identity : forall pf skip o x t, cast pf skip o x false t = VStr x.
 Proof. intros. unfold cast. destruct (_ && skip t); reflexivity. Qed.
 Print Assumptions C01_uncast_identity.
+
+(* ================================================================================== *)
+(* 1. The main theorem: for EVERY option record, cast flag, float parser, tag-skip function
+   and document in dom01, decoding the document's token stream succeeds and returns the
+   prescribed Map (equality of Maps is up to entry order, at every depth).               *)
+(* ================================================================================== *)
+Theorem C01_decode_conv : forall pf skip o r d,
+  dom01 o d = true ->
+  exists v, xml_decode pf skip o r (toks_of_doc d) TermEOF = Ok v /\
+            veqb v (conv_doc pf skip o r d) = true.
+Proof. exact decode_conv. Qed.
+Print Assumptions C01_decode_conv.
+
+(* the same for either terminator - a syntax error AFTER the root element does not matter -, and the
+   decoder leaves exactly the tokens after the root element unread (NewMapXmlReader) *)
+Theorem C01_decode_rest_conv : forall pf skip o r d tm,
+  dom01 o d = true ->
+  exists m, xml_decode_rest pf skip o r (toks_of_doc d) tm = Ok (m, d_trailer d) /\
+            xml_decode pf skip o r (toks_of_doc d) tm = Ok (VMap m) /\
+            veqb (VMap m) (conv_doc pf skip o r d) = true.
+Proof. exact decode_rest_conv. Qed.
+Print Assumptions C01_decode_rest_conv.
+
+(* ---- sample data for the non-vacuity examples ---- *)
+Definition nm (sp lo : string) : xname := {| xspace := s sp; xlocal := s lo |}.
+Definition att (sp lo v : string) : xattr := {| aname := nm sp lo; avalue := s v |}.
+Definition E (lo : string) (a : list xattr) (k : list node) : node := NElem (Elem (nm "" lo) a k).
+Definition T (x : string) : node := NText (s x).
+Definition pf1 (x : str) : option flt := if str_eqb x (s "3.5") then Some (s "3.5") else None.
+Definition skip0 (x : str) : bool := false.
+
+(* every decoder option switched on: "@" attribute prefix, lower-case and snake-case keys, tag
+   sequence numbers, decoder-side escaping, int/float/bool casts *)
+Definition o_all : opts := {|
+  attrPrefix := s "@"; lenAttrPrefix := 1;
+  includeTagSeqNum := true; lowerCase := true; snakeCaseKeys := true;
+  disableTrimWhiteSpace := false; trimRunes := trim_all;
+  decodeSimpleValuesAsMap := false;
+  castToInt := true; castToFloat := true; castToBool := true; castNanInf := false;
+  handleXMPPStreamTag := false; useGoXmlEmptyElemSyntax := false; xmlCheckIsValid := false;
+  xmlEscapeChars := false; xmlEscapeCharsDecoder := true;
+  textK := s "#text"; seqK := s "#seq"; commentK := s "#comment"; attrK := s "#attr";
+  directiveK := s "#directive"; procinstK := s "#procinst"; targetK := s "#target"; instK := s "#inst";
+  fieldSep := s ":"; useDotNotation := false; defaultArraySize := 32; jsonUseNumber := false |}.
+
+(* <?xml version="1.0"?> <!-- c -->
+   <Order ID="7" x:Kind="A&B"><Line-Item>3.5</Line-Item> <Note>  hi </Note>
+     <Line-Item sku="q"><Qty>true</Qty></Line-Item> text <Empty/><!-- z --></Order> tail *)
+Definition order_doc : doc := {|
+  d_prolog := [NOther (TProcInst (s "xml") (s "version=""1.0""")); T " "; NOther (TComment (s " c ")); T "stray"];
+  d_root := Elem (nm "" "Order") [att "" "ID" "7"; att "x" "Kind" "A&B"]
+    [ E "Line-Item" [] [T "3.5"]; T " "; E "Note" [] [T "  hi "];
+      E "Line-Item" [att "" "sku" "q"] [E "Qty" [] [T "true"]]; T " text "; E "Empty" [] [];
+      NOther (TComment (s " z ")) ];
+  d_trailer := [TChar (s " tail"); TComment (s "after")] |}.
+
+Example C01_dom01_order_all : dom01 o_all order_doc = true.
+Proof. vm_compute. reflexivity. Qed.
+Example C01_dom01_order_default : dom01 opts0 order_doc = true.
+Proof. vm_compute. reflexivity. Qed.
+
+(* the decoded Map of the sample, written out: default options ... *)
+Example C01_decode_order_default :
+  xml_decode pf1 skip0 opts0 true (toks_of_doc order_doc) TermEOF =
+  Ok (VMap [(s "Order", VMap [
+        (s "-ID", VStr (s "7")); (s "-Kind", VStr (s "A&B"));
+        (s "Line-Item", VList [VFlt (s "3.5"); VMap [(s "-sku", VStr (s "q")); (s "Qty", VBool true)]]);
+        (s "Note", VStr (s "hi"));
+        (s "#text", VStr (s "text"));
+        (s "Empty", VStr [])])]).
+Proof. vm_compute. reflexivity. Qed.
+(* ... and every option on; the prescribed Map has "#text" last: the two agree up to entry order only *)
+Example C01_decode_order_all :
+  xml_decode pf1 skip0 o_all true (toks_of_doc order_doc) TermEOF =
+  Ok (VMap [(s "order", VMap [
+        (s "@id", VI64 7); (s "@kind", VStr (s "A&amp;B"));
+        (s "line_item", VList [
+            VMap [(s "#text", VFlt (s "3.5")); (s "_seq", VInt 0)];
+            VMap [(s "@sku", VStr (s "q"));
+                  (s "qty", VMap [(s "#text", VBool true); (s "_seq", VInt 0)]);
+                  (s "_seq", VInt 2)]]);
+        (s "note", VMap [(s "#text", VStr (s "hi")); (s "_seq", VInt 1)]);
+        (s "#text", VStr (s "text"));
+        (s "empty", VMap [(s "#text", VStr []); (s "_seq", VInt 3)])])])
+  /\ value_eqb (VMap [(s "order", VMap [
+        (s "@id", VI64 7); (s "@kind", VStr (s "A&amp;B"));
+        (s "line_item", VList [
+            VMap [(s "#text", VFlt (s "3.5")); (s "_seq", VInt 0)];
+            VMap [(s "@sku", VStr (s "q"));
+                  (s "qty", VMap [(s "#text", VBool true); (s "_seq", VInt 0)]);
+                  (s "_seq", VInt 2)]]);
+        (s "note", VMap [(s "#text", VStr (s "hi")); (s "_seq", VInt 1)]);
+        (s "empty", VMap [(s "#text", VStr []); (s "_seq", VInt 3)]);
+        (s "#text", VStr (s "text"))])]) (conv_doc pf1 skip0 o_all true order_doc) = true.
+Proof. vm_compute. split; reflexivity. Qed.
+
+(* ---- every hypothesis of dom01 is needed: outside it the decoder and [conv] differ ---- *)
+Definition ok_differs pf skip o r d : Prop :=
+  exists v, xml_decode pf skip o r (toks_of_doc d) TermEOF = Ok v /\ veqb v (conv_doc pf skip o r d) = false.
+Definition mkdoc (e : elem) : doc := {| d_prolog := []; d_root := e; d_trailer := [] |}.
+Definition with_keys (kp ap : string) (o : opts) : opts := {|
+  attrPrefix := s ap; lenAttrPrefix := length (s ap);
+  includeTagSeqNum := includeTagSeqNum o; lowerCase := lowerCase o; snakeCaseKeys := snakeCaseKeys o;
+  disableTrimWhiteSpace := disableTrimWhiteSpace o; trimRunes := trimRunes o;
+  decodeSimpleValuesAsMap := decodeSimpleValuesAsMap o;
+  castToInt := castToInt o; castToFloat := castToFloat o; castToBool := castToBool o; castNanInf := castNanInf o;
+  handleXMPPStreamTag := handleXMPPStreamTag o; useGoXmlEmptyElemSyntax := useGoXmlEmptyElemSyntax o;
+  xmlCheckIsValid := xmlCheckIsValid o; xmlEscapeChars := xmlEscapeChars o;
+  xmlEscapeCharsDecoder := xmlEscapeCharsDecoder o;
+  textK := s kp ++ s "text"; seqK := s kp ++ s "seq"; commentK := s kp ++ s "comment"; attrK := s kp ++ s "attr";
+  directiveK := s kp ++ s "directive"; procinstK := s kp ++ s "procinst"; targetK := s kp ++ s "target";
+  instK := s kp ++ s "inst";
+  fieldSep := fieldSep o; useDotNotation := useDotNotation o; defaultArraySize := defaultArraySize o;
+  jsonUseNumber := jsonUseNumber o |}.
+
+(* two non-blank text runs, <a p="1">x<b/>y</a>: the decoder keeps the LAST run ("y"); with no
+   attribute, <a>x<b/>y</a>, it keeps the FIRST ("x") - which run survives depends on the position *)
+Example C01_two_text_runs_outside :
+  ok_differs pf1 skip0 opts0 true (mkdoc (Elem (nm "" "a") [att "" "p" "1"] [T "x"; E "b" [] []; T "y"])).
+Proof. eexists. split; vm_compute; reflexivity. Qed.
+Example C01_two_text_runs_first_or_last :
+  xml_decode pf1 skip0 opts0 true (toks_of_doc (mkdoc (Elem (nm "" "a") [] [T "x"; E "b" [] []; T "y"]))) TermEOF
+    = Ok (VMap [(s "a", VMap [(s "b", VStr []); (s "#text", VStr (s "x"))])]) /\
+  xml_decode pf1 skip0 opts0 true (toks_of_doc (mkdoc (Elem (nm "" "a") [] [E "b" [] []; T "x"; E "c" [] []; T "y"]))) TermEOF
+    = Ok (VMap [(s "a", VMap [(s "b", VStr []); (s "#text", VStr (s "y")); (s "c", VStr [])])]).
+Proof. split; vm_compute; reflexivity. Qed.
+(* two attributes with the same local name in different namespaces, <e x:a="1" y:a="2"/>: one key, last wins *)
+Example C01_attr_keys_collide_outside :
+  ok_differs pf1 skip0 opts0 true (mkdoc (Elem (nm "" "e") [att "x" "a" "1"; att "y" "a" "2"] [])).
+Proof. eexists. split; vm_compute; reflexivity. Qed.
+(* the same through case folding, <e A="1" a="2"/> under lower-case keys *)
+Example C01_attr_keys_fold_outside :
+  ok_differs pf1 skip0 o_all true (mkdoc (Elem (nm "" "e") [att "" "A" "1"; att "" "a" "2"] [])).
+Proof. eexists. split; vm_compute; reflexivity. Qed.
+(* attribute prefix equal to the key prefix: the attribute "text" is the text key, <e text="1">t</e> *)
+Example C01_attr_is_text_key_outside :
+  ok_differs pf1 skip0 (with_keys "#" "#" opts0) true (mkdoc (Elem (nm "" "e") [att "" "text" "1"] [T "t"])).
+Proof. eexists. split; vm_compute; reflexivity. Qed.
+(* ... which can also happen with DISTINCT prefixes: attribute prefix "_t", key prefix "_", attribute "ext" *)
+Example C01_attr_is_text_key_distinct_prefixes :
+  ok_differs pf1 skip0 (with_keys "_" "_t" opts0) true (mkdoc (Elem (nm "" "e") [att "" "ext" "1"] [T "t"])).
+Proof. eexists. split; vm_compute; reflexivity. Qed.
+(* a child element named like the text key (possible when the key prefix is empty): <a>hello<text>x</text></a> *)
+Example C01_child_is_text_key_outside :
+  ok_differs pf1 skip0 (with_keys "" "-" opts0) true (mkdoc (Elem (nm "" "a") [] [T "hello"; E "text" [] [T "x"]])).
+Proof. eexists. split; vm_compute; reflexivity. Qed.
+(* what the decoder does there: colliding attribute keys give ONE entry, the last attribute wins *)
+Theorem C01_attr_last_wins : forall pf skip o r attrs k,
+  lookup k (attr_entries pf skip o r attrs) =
+  match find_last (fun a => str_eqb k (attr_key o (xlocal (aname a)))) attrs with
+  | Some a => Some (cast pf skip o (attr_val o a) r k)
+  | None => None
+  end.
+Proof. exact attr_last_wins. Qed.
+Print Assumptions C01_attr_last_wins.
+(* NOT needed: an attribute key equal to a child key (empty attribute prefix) - both are collected in one list *)
+Example C01_attr_child_same_key_inside :
+  dom01 (with_keys "#" "" opts0) (mkdoc (Elem (nm "" "a") [att "" "b" "1"] [E "b" [] [T "2"]])) = true /\
+  xml_decode pf1 skip0 (with_keys "#" "" opts0) true
+    (toks_of_doc (mkdoc (Elem (nm "" "a") [att "" "b" "1"] [E "b" [] [T "2"]]))) TermEOF
+  = Ok (VMap [(s "a", VMap [(s "b", VList [VStr (s "1"); VStr (s "2")])])]).
+Proof. split; vm_compute; reflexivity. Qed.
+
+(* ================================================================================== *)
+(* 2. The specification checked against the statement: one theorem per clause, about conv *)
+(* ================================================================================== *)
+(* one root key: the (transformed) root name *)
+Theorem C01_conv_single_root : forall pf skip o r d,
+  conv_doc pf skip o r d = VMap [(ekey o (d_root d), conv pf skip o r (d_root d))].
+Proof. exact conv_single_root. Qed.
+Print Assumptions C01_conv_single_root.
+
+(* each attribute under prefix+name (transformed), with its (escaped, cast) value *)
+Theorem C01_conv_attr_key : forall pf skip o r n attrs kids a,
+  nodup_keys (akeys o attrs) = true -> In a attrs ->
+  child_vals o (conv pf skip o r) (attr_key o (xlocal (aname a))) (child_elems kids) 0 = [] ->
+  exists m, conv pf skip o r (Elem n attrs kids) = VMap m /\
+            lookup (attr_key o (xlocal (aname a))) m
+            = Some (cast pf skip o (attr_val o a) r (attr_key o (xlocal (aname a)))).
+Proof. exact conv_attr_key. Qed.
+Print Assumptions C01_conv_attr_key.
+
+(* each child element under its (transformed) local name; the values of repeated sibling names -
+   adjacent or interleaved - are collected into ONE list, in document order; a single one stays as it is *)
+Theorem C01_conv_children : forall pf skip o r n attrs kids k v vs,
+  existsb (str_eqb k) (akeys o attrs) = false ->
+  child_vals o (conv pf skip o r) k (child_elems kids) 0 = v :: vs ->
+  exists m, conv pf skip o r (Elem n attrs kids) = VMap m /\ lookup k m = Some (one_or_list (v :: vs)).
+Proof. exact conv_children. Qed.
+Print Assumptions C01_conv_children.
+
+(* the value of an element is never itself a list, so a list under a key always is the collection of siblings *)
+Theorem C01_conv_not_list : forall pf skip o r e, is_list (conv pf skip o r e) = false.
+Proof. exact conv_not_list. Qed.
+Print Assumptions C01_conv_not_list.
+
+(* text beside attributes or child elements: under the text key *)
+Theorem C01_conv_text_beside : forall pf skip o r n attrs kids tx rest,
+  attrs <> [] \/ child_elems kids <> [] ->
+  text_runs o kids = tx :: rest ->
+  existsb (str_eqb (textK o)) (akeys o attrs) = false ->
+  child_vals o (conv pf skip o r) (textK o) (child_elems kids) 0 = [] ->
+  exists m, conv pf skip o r (Elem n attrs kids) = VMap m /\
+            lookup (textK o) m
+            = Some (cast pf skip o tx r
+                      (if negb (decodeSimpleValuesAsMap o) && is_nil attrs && text_first o kids
+                       then xform_key o (xlocal n) else textK o)).
+Proof. exact conv_text_beside. Qed.
+Print Assumptions C01_conv_text_beside.
+
+(* no other key: a key that is no attribute key, no child key and not the text key of a text run is absent *)
+Theorem C01_conv_no_other_key : forall pf skip o r n attrs kids m k,
+  conv pf skip o r (Elem n attrs kids) = VMap m ->
+  attrs <> [] \/ child_elems kids <> [] ->
+  existsb (str_eqb k) (akeys o attrs) = false ->
+  child_vals o (conv pf skip o r) k (child_elems kids) 0 = [] ->
+  str_eqb k (textK o) = false \/ text_runs o kids = [] ->
+  lookup k m = None.
+Proof. exact conv_no_other_key'. Qed.
+Print Assumptions C01_conv_no_other_key.
+
+(* a text-only element: its trimmed string - or, under DecodeSimpleValuesAsMap, that string under the text key *)
+Theorem C01_conv_text_only : forall pf skip o r n kids tx rest,
+  child_elems kids = [] -> text_runs o kids = tx :: rest ->
+  conv pf skip o r (Elem n [] kids) =
+  if decodeSimpleValuesAsMap o then VMap [(textK o, cast pf skip o tx r (textK o))]
+  else cast pf skip o tx r (xform_key o (xlocal n)).
+Proof. exact conv_text_only. Qed.
+Print Assumptions C01_conv_text_only.
+
+(* "trimmed": with the current trim set (all white space, or - keep-spaces - all but the blank), then escaped
+   under decoder-side escaping *)
+Theorem C01_text_val_spec : forall o x,
+  text_val o x = if xmlEscapeCharsDecoder o then escape_chars (trim (trimRunes o) x) else trim (trimRunes o) x.
+Proof. exact text_val_spec. Qed.
+Print Assumptions C01_text_val_spec.
+
+Theorem C01_text_runs_single : forall o x,
+  text_runs o [NText x] = if is_nil (text_val o x) then [] else [text_val o x].
+Proof. exact text_runs_single. Qed.
+Print Assumptions C01_text_runs_single.
+
+(* an empty element (no attribute, no child element, only blank text / comments): the empty string *)
+Theorem C01_conv_empty_elem : forall pf skip o r n kids,
+  child_elems kids = [] -> text_runs o kids = [] -> conv pf skip o r (Elem n [] kids) = VStr [].
+Proof. exact conv_empty_elem. Qed.
+Print Assumptions C01_conv_empty_elem.
+
+(* an element with attributes or child elements is a Map *)
+Theorem C01_conv_is_map : forall pf skip o r n attrs kids,
+  attrs <> [] \/ child_elems kids <> [] -> exists m, conv pf skip o r (Elem n attrs kids) = VMap m.
+Proof. exact conv_is_map. Qed.
+Print Assumptions C01_conv_is_map.
+
+(* ---- options ---- *)
+(* lower-case / snake-case keys act on element names ... *)
+Theorem C01_xform_key_spec : forall o k,
+  xform_key o k =
+  (if snakeCaseKeys o then replace_char "-"%char "_"%char else fun x => x)
+    ((if lowerCase o then to_lower else fun x => x) k).
+Proof. exact xform_key_spec. Qed.
+Print Assumptions C01_xform_key_spec.
+(* ... and on attribute names, the attribute prefix itself is kept as set *)
+Theorem C01_attr_key_spec : forall o k,
+  attr_key o k =
+  attrPrefix o ++ (if lowerCase o then to_lower else fun x => x)
+                    ((if snakeCaseKeys o then replace_char "-"%char "_"%char else fun x => x) k).
+Proof. exact attr_key_spec. Qed.
+Print Assumptions C01_attr_key_spec.
+
+(* tag sequence numbers: off - nothing; on - the i-th child element gets "_seq": i (a non-Map value is wrapped) *)
+Theorem C01_wrap_seq_off : forall o i v, includeTagSeqNum o = false -> wrap_seq o i v = v.
+Proof. exact wrap_seq_off. Qed.
+Print Assumptions C01_wrap_seq_off.
+Theorem C01_wrap_seq_on : forall pf skip o r i e,
+  includeTagSeqNum o = true ->
+  wrap_seq o i (conv pf skip o r e) =
+  match conv pf skip o r e with
+  | VMap m => VMap (set (s "_seq") (VInt i) m)
+  | v => VMap [(textK o, v); (s "_seq", VInt i)]
+  end.
+Proof. exact wrap_seq_on. Qed.
+Print Assumptions C01_wrap_seq_on.
+
+(* cast argument false (and no sequence numbers): every leaf of the prescribed Map is a string *)
+Theorem C01_conv_uncast_only_str : forall pf skip o,
+  includeTagSeqNum o = false -> forall e, only_str (conv pf skip o false e) = true.
+Proof. exact conv_uncast_only_str. Qed.
+Print Assumptions C01_conv_uncast_only_str.
+
+(* lower-case keys change ONLY keys: the prescribed Map is that of the document with lower-cased element and
+   attribute names (values, text key, "_seq", the attribute prefix itself are untouched) *)
+Theorem C01_conv_lower : forall pf skip o r e,
+  lowerCase o = false ->
+  conv pf skip (set_lower true o) r e = conv pf skip o r (rename to_lower e).
+Proof. exact conv_lower. Qed.
+Print Assumptions C01_conv_lower.
+(* snake-case keys likewise: '-' replaced by '_' in every element and attribute name *)
+Theorem C01_conv_snake : forall pf skip o r e,
+  snakeCaseKeys o = false ->
+  conv pf skip (set_snake true o) r e = conv pf skip o r (rename snake e).
+Proof. exact conv_snake. Qed.
+Print Assumptions C01_conv_snake.
+(* in general: option records that agree on the value options and whose key functions differ by a renaming g *)
+Theorem C01_conv_rename : forall pf skip o o' r g,
+  same_value_opts o o' ->
+  (forall k, xform_key o' k = xform_key o (g k)) -> (forall k, attr_key o' k = attr_key o (g k)) ->
+  forall e, conv pf skip o' r e = conv pf skip o r (rename g e).
+Proof. exact conv_rename. Qed.
+Print Assumptions C01_conv_rename.
+(* the prescribed Map depends on the option record through these twelve fields only: the keep-spaces flag matters
+   only through the trim set; XMPP handling, the encoder options and the other generated keys do not matter *)
+Theorem C01_conv_frame : forall pf skip o o' r e,
+  same_key_opts o o' -> same_value_opts o o' -> conv pf skip o' r e = conv pf skip o r e.
+Proof. exact conv_frame. Qed.
+Print Assumptions C01_conv_frame.
+
+Example C01_lower_snake_ex :
+  lowerCase opts0 = false /\ snakeCaseKeys (set_lower true opts0) = false /\
+  conv pf1 skip0 (set_snake true (set_lower true opts0)) true (d_root order_doc) =
+  VMap [(s "-id", VStr (s "7")); (s "-kind", VStr (s "A&B"));
+        (s "line_item", VList [VFlt (s "3.5"); VMap [(s "-sku", VStr (s "q")); (s "qty", VBool true)]]);
+        (s "note", VStr (s "hi")); (s "empty", VStr []); (s "#text", VStr (s "text"))].
+Proof. vm_compute. repeat split; reflexivity. Qed.
+
+(* ---- non-vacuity of the clause theorems: <r id="1"><a>1</a><b>2</b><a>3</a> tx </r> ---- *)
+Definition aba : elem :=
+  Elem (nm "" "r") [att "" "id" "1"] [E "a" [] [T "1"]; E "b" [] [T "2"]; E "a" [] [T "3"]; T " tx "].
+Example C01_aba_hyps :
+  nodup_keys (akeys opts0 [att "" "id" "1"]) = true /\
+  child_vals opts0 (conv pf1 skip0 opts0 true) (s "-id") (child_elems [E "a" [] [T "1"]; E "b" [] [T "2"]; E "a" [] [T "3"]; T " tx "]) 0 = [] /\
+  existsb (str_eqb (s "a")) (akeys opts0 [att "" "id" "1"]) = false /\
+  child_vals opts0 (conv pf1 skip0 opts0 true) (s "a") (child_elems [E "a" [] [T "1"]; E "b" [] [T "2"]; E "a" [] [T "3"]; T " tx "]) 0
+    = [VStr (s "1"); VStr (s "3")] /\
+  text_runs opts0 [E "a" [] [T "1"]; E "b" [] [T "2"]; E "a" [] [T "3"]; T " tx "] = [s "tx"] /\
+  existsb (str_eqb (textK opts0)) (akeys opts0 [att "" "id" "1"]) = false /\
+  child_vals opts0 (conv pf1 skip0 opts0 true) (textK opts0) (child_elems [E "a" [] [T "1"]; E "b" [] [T "2"]; E "a" [] [T "3"]; T " tx "]) 0 = [] /\
+  conv pf1 skip0 opts0 true aba =
+    VMap [(s "-id", VStr (s "1")); (s "a", VList [VStr (s "1"); VStr (s "3")]); (s "b", VStr (s "2")); (s "#text", VStr (s "tx"))].
+Proof. vm_compute. repeat split; reflexivity. Qed.
+(* with sequence numbers the interleaved siblings keep their positions 0 and 2 *)
+Example C01_aba_seq :
+  child_vals o_all (conv pf1 skip0 o_all true) (s "a") (child_elems [E "a" [] [T "1"]; E "b" [] [T "2"]; E "a" [] [T "3"]]) 0
+  = [VMap [(s "#text", VI64 1); (s "_seq", VInt 0)]; VMap [(s "#text", VI64 3); (s "_seq", VInt 2)]].
+Proof. vm_compute. reflexivity. Qed.
+Example C01_text_only_ex :
+  child_elems [T "  "; NOther (TComment (s "c")); T " a < b "] = [] /\
+  text_runs o_all [T "  "; NOther (TComment (s "c")); T " a < b "] = [s "a &lt; b"] /\
+  conv pf1 skip0 o_all true (Elem (nm "" "Free-Text") [] [T "  "; NOther (TComment (s "c")); T " a < b "]) = VStr (s "a &lt; b").
+Proof. vm_compute. repeat split; reflexivity. Qed.
+Example C01_empty_ex :
+  child_elems [T "  "; NOther (TComment (s "c"))] = [] /\ text_runs opts0 [T "  "; NOther (TComment (s "c"))] = [] /\
+  conv pf1 skip0 opts0 true (Elem (nm "" "e") [] [T "  "; NOther (TComment (s "c"))]) = VStr [].
+Proof. vm_compute. repeat split; reflexivity. Qed.
+Example C01_uncast_ex :
+  includeTagSeqNum opts0 = false /\
+  conv pf1 skip0 opts0 false aba =
+    VMap [(s "-id", VStr (s "1")); (s "a", VList [VStr (s "1"); VStr (s "3")]); (s "b", VStr (s "2")); (s "#text", VStr (s "tx"))].
+Proof. vm_compute. split; reflexivity. Qed.
+
+(* ================================================================================== *)
+(* 3. The error side, for ALL options and ALL token lists the tokenizer can return:
+      every start tag has a local name, no end tag before the first start tag           *)
+(* ================================================================================== *)
+Theorem C01_decode_no_panic : forall pf skip o r tm ts,
+  forallb start_ok ts = true -> top_ok ts = true -> xml_decode pf skip o r ts tm <> Panic.
+Proof. exact decode_no_panic. Qed.
+Print Assumptions C01_decode_no_panic.
+
+(* a Map is returned exactly when the token list contains the complete root element ... *)
+Theorem C01_decode_ok_iff : forall pf skip o r tm ts,
+  forallb start_ok ts = true -> top_ok ts = true ->
+  ((exists v, xml_decode pf skip o r ts tm = Ok v) <-> doc_complete o ts = true).
+Proof. exact decode_ok_iff. Qed.
+Print Assumptions C01_decode_ok_iff.
+
+(* ... otherwise - the stream ends (io.EOF) or breaks (syntax error) before the root element is complete -
+   the result is that error, and no partial Map *)
+Theorem C01_decode_fails_iff : forall pf skip o r tm ts,
+  forallb start_ok ts = true -> top_ok ts = true ->
+  (xml_decode pf skip o r ts tm = Err (err_of tm) <-> doc_complete o ts = false).
+Proof. exact decode_fails_iff. Qed.
+Print Assumptions C01_decode_fails_iff.
+
+(* <a><b>x</b  (cut inside the end tag of b), and the complete <a><b>x</b></a> *)
+Example C01_truncated_ex :
+  let ts := [TStart (nm "" "a") []; TStart (nm "" "b") []; TChar (s "x")] in
+  forallb start_ok ts = true /\ top_ok ts = true /\ doc_complete opts0 ts = false /\
+  xml_decode pf1 skip0 opts0 true ts TermErr = Err EOther /\
+  xml_decode pf1 skip0 opts0 true ts TermEOF = Err EEOF /\
+  doc_complete opts0 (ts ++ [TEnd (nm "" "b"); TEnd (nm "" "a")]) = true.
+Proof. vm_compute. repeat split; reflexivity. Qed.
+
+(* the token list of a document in dom01 meets the two hypotheses and is complete (whatever follows the root) ... *)
+Theorem C01_doc_tokens_ok : forall o d,
+  dom01 o d = true ->
+  forallb start_ok (flat_map toks_of_node (d_prolog d) ++ toks_of_elem (d_root d)) = true /\
+  forall rest,
+    top_ok ((flat_map toks_of_node (d_prolog d) ++ toks_of_elem (d_root d)) ++ rest) = true /\
+    doc_complete o ((flat_map toks_of_node (d_prolog d) ++ toks_of_elem (d_root d)) ++ rest) = true.
+Proof. exact doc_tokens_ok. Qed.
+Print Assumptions C01_doc_tokens_ok.
+
+(* ... and cut anywhere before the end of its root element, it decodes to the terminator's error *)
+Theorem C01_truncated_doc_fails : forall pf skip o r tm d p q,
+  dom01 o d = true ->
+  flat_map toks_of_node (d_prolog d) ++ toks_of_elem (d_root d) = p ++ q -> q <> [] ->
+  xml_decode pf skip o r p tm = Err (err_of tm).
+Proof. exact truncated_doc_fails. Qed.
+Print Assumptions C01_truncated_doc_fails.
+
+Example C01_truncated_order_ex :
+  exists p q, flat_map toks_of_node (d_prolog order_doc) ++ toks_of_elem (d_root order_doc) = p ++ q /\ q <> [] /\
+              length p = 12 /\ xml_decode pf1 skip0 o_all true p TermErr = Err EOther.
+Proof.
+  exists (firstn 12 (flat_map toks_of_node (d_prolog order_doc) ++ toks_of_elem (d_root order_doc))),
+         (skipn 12 (flat_map toks_of_node (d_prolog order_doc) ++ toks_of_elem (d_root order_doc))).
+  split; [symmetry; apply firstn_skipn|]. split; [vm_compute; discriminate|]. split; vm_compute; reflexivity.
+Qed.
